@@ -11,8 +11,10 @@ import (
 	"sort"
 	"strconv"
 	"strings"
+	"sync"
 	"time"
 
+	"rare/pkg/expressions/funclib"
 	"rare/pkg/extractor"
 	"rare/pkg/extractor/batchers"
 	"rare/pkg/matchers"
@@ -34,7 +36,113 @@ func (harnessMatcher) FindSubmatchIndex(b []byte) []int {
 	return []int{0, len(b), -1, -1}
 }
 
+// harnessMatcherN: as harnessMatcher plus group 2 = the text before the first ':' and a name table
+// (mirrors Rare.C01.harnessIndicesN / harnessNamesN).
+type harnessMatcherN struct{}
+
+func (harnessMatcherN) CreateInstance() matchers.Matcher { return harnessMatcherN{} }
+func (harnessMatcherN) SubexpNameTable() map[string]int {
+	return map[string]int{"val": 1, "key": 2, "all": 0}
+}
+func (harnessMatcherN) FindSubmatchIndex(b []byte) []int {
+	if bytes.IndexByte(b, 'x') >= 0 {
+		return nil
+	}
+	if i := bytes.IndexByte(b, ':'); i >= 0 {
+		return []int{0, len(b), i + 1, len(b), 0, i}
+	}
+	return []int{0, len(b), -1, -1, -1, -1}
+}
+
+// clsSpec is the classification configuration of a case: matcher, ignore expressions, extract expression
+// (nil *clsSpec = the fixed legacy configuration: harnessMatcher, ignore "{1}", extract "{0}").
+// Case-line fields `<matcher> <ignores> <extract>`: matcher h|n; ignores N (nil IgnoreSet) | E (a set
+// without expressions) | hex templates joined by '+'; extract hex.
+type clsSpec struct {
+	matcher   string
+	nilIgnore bool
+	ignores   []string
+	extract   string
+}
+
+func (c *clsSpec) fields() []string {
+	ig := "E"
+	if c.nilIgnore {
+		ig = "N"
+	} else if len(c.ignores) > 0 {
+		parts := make([]string, len(c.ignores))
+		for i, e := range c.ignores {
+			parts[i] = HexS(e)
+		}
+		ig = strings.Join(parts, "+")
+	}
+	return []string{c.matcher, ig, HexS(c.extract)}
+}
+
+func parseClsSpec(m, ig, ex string) *clsSpec {
+	c := &clsSpec{matcher: m, extract: string(UnHex(ex))}
+	switch ig {
+	case "N":
+		c.nilIgnore = true
+	case "E":
+	default:
+		for _, h := range strings.Split(ig, "+") {
+			c.ignores = append(c.ignores, string(UnHex(h)))
+		}
+	}
+	return c
+}
+
+// extractorConfig builds the real extractor configuration of a case through the real constructors.
+func extractorConfig(c *clsSpec, workers int) (*extractor.Config, error) {
+	if c == nil {
+		ig, _ := extractor.NewIgnoreExpressions("{1}")
+		return &extractor.Config{Matcher: harnessMatcher{}, Extract: "{0}", Workers: workers, Ignore: ig}, nil
+	}
+	var ig extractor.IgnoreSet
+	var err error
+	if c.nilIgnore {
+		ig, err = extractor.NewIgnoreExpressions()
+	} else {
+		ig, err = extractor.NewIgnoreExpressions(append([]string{}, c.ignores...)...)
+	}
+	if err != nil {
+		return nil, err
+	}
+	var m matchers.Factory = harnessMatcher{}
+	if c.matcher == "n" {
+		m = harnessMatcherN{}
+	}
+	return &extractor.Config{Matcher: m, Extract: c.extract, Workers: workers, Ignore: ig}, nil
+}
+
+// srcName is the source name the batcher reports for input k of a case with a classification
+// configuration (files are opened by their name relative to the case's directory).
+func srcName(mode string, k int) string {
+	if mode == "reader" || mode == "r" {
+		return fmt.Sprintf("s%d", k)
+	}
+	return fmt.Sprintf("f%04d", k)
+}
+
+var chdirMu sync.Mutex
+
+// inDir makes dir the working directory (so that the real OpenFilesToChan can be given the relative
+// names f0000… and {src} is that name); the returned function restores the previous one.
+func inDir(dir string) func() {
+	chdirMu.Lock()
+	old, _ := os.Getwd()
+	os.Chdir(dir)
+	return func() {
+		if old != "" {
+			os.Chdir(old)
+		}
+		chdirMu.Unlock()
+	}
+}
+
 type pipeCfg struct {
+	cls                              *clsSpec
 	inputs                           [][]byte
 	mode                             string
 	batch, workers, readers, buffer  int
@@ -48,6 +156,7 @@ type pipeResult struct {
 	read, matched, ignored uint64
 	matches                []extractor.Match
 	readErrors             int
+	compileError           bool
 }
 
 var pipeSeq int
@@ -78,20 +187,35 @@ func runPipe(c pipeCfg) pipeResult {
 		os.MkdirAll(dir, 0o755)
 		cleanup = func() { os.RemoveAll(dir) }
 		names := make(chan string, len(c.inputs)+1)
+		if c.cls != nil {
+			defer inDir(dir)()
+		}
 		for i, in := range c.inputs {
 			p := filepath.Join(dir, fmt.Sprintf("f%04d", i))
 			os.WriteFile(p, in, 0o644)
+			if c.cls != nil {
+				p = srcName(c.mode, i)
+			}
 			names <- p
 		}
 		close(names)
 		b = batchers.OpenFilesToChan(names, false, c.readers, c.batch, c.buffer)
 	}
-	ig, _ := extractor.NewIgnoreExpressions("{1}")
-	ext, err := extractor.New(b.BatchChan(), &extractor.Config{
-		Matcher: harnessMatcher{}, Extract: "{0}", Workers: c.workers, Ignore: ig,
-	})
-	if err != nil {
-		panic(err)
+	ecfg, cerr := extractorConfig(c.cls, c.workers)
+	var ext *extractor.Extractor
+	var err error
+	if cerr == nil {
+		ext, err = extractor.New(b.BatchChan(), ecfg)
+	}
+	if cerr != nil || err != nil {
+		go func() { // drain the batcher so that its goroutines end
+			for range b.BatchChan() {
+			}
+		}()
+		if cleanup != nil {
+			cleanup()
+		}
+		return pipeResult{compileError: true}
 	}
 	var held [][]extractor.Match
 	n := 0
@@ -143,7 +267,11 @@ func group(m extractor.Match, k int) string {
 func parsePipe(f []string) pipeCfg {
 	// pipe <inputs> <mode> <batch> <workers> <readers> <buffer> <flushms> <script> <procs> <delayEvery>
 	atoi := func(s string) int { n, _ := strconv.Atoi(s); return n }
-	return pipeCfg{inputs: UnHexList(f[1]), mode: f[2], batch: atoi(f[3]), workers: atoi(f[4]), readers: atoi(f[5]),
+	var cls *clsSpec
+	if len(f) >= 14 {
+		cls = parseClsSpec(f[11], f[12], f[13])
+	}
+	return pipeCfg{cls: cls, inputs: UnHexList(f[1]), mode: f[2], batch: atoi(f[3]), workers: atoi(f[4]), readers: atoi(f[5]),
 		buffer: atoi(f[6]), flushMs: atoi(f[7]), script: f[8], procs: atoi(f[9]), consumerDelayEvery: atoi(f[10]), consumerWait: 200}
 }
 
@@ -152,9 +280,24 @@ func pipeAnswer(c pipeCfg, r pipeResult) string {
 		src, num int
 		s        string
 	}
+	if r.compileError {
+		return "compile-error"
+	}
 	rows := make([]row, len(r.matches))
 	inorder := true
 	for i, m := range r.matches {
+		if c.cls != nil {
+			// with a classification configuration: source (must be the name of the input), number, line, key
+			src := srcIndex(m.Source)
+			if m.Source != srcName(c.mode, src) {
+				src = -1
+			}
+			rows[i] = row{src, int(m.LineNumber), fmt.Sprintf("%d:%d:%s:%s", src, m.LineNumber, HexS(m.Line), HexS(m.Extracted))}
+			if i > 0 && (rows[i-1].src > rows[i].src || (rows[i-1].src == rows[i].src && rows[i-1].num >= rows[i].num)) {
+				inorder = false
+			}
+			continue
+		}
 		// Extracted must be the key `{0}` = the line itself; a mismatch shows up in the text field.
 		txt := m.Line
 		if m.Extracted != m.Line {
@@ -198,7 +341,12 @@ func pipeRun(f []string) string {
 
 func genLines(r *Rand, n int) []byte {
 	var sb bytes.Buffer
-	words := []string{"a", "bb", "x", "k:v", "k: ", ":", "", "long-line-long-line-long-line", "\r", "q:\t", "é", "\x00z"}
+	words := []string{"a", "bb", "x", "k:v", "k: ", ":", "", "long-line-long-line-long-line", "\r", "q:\t", "é", "\x00z",
+		// group 1 / keys made of white space only: ASCII, NEL, NBSP, U+1680, U+2003, U+2028, U+3000 …
+		"w:\u00a0", "w:\u0085", "w:\u1680 ", "w:\u2003\t", "w:\u2028", "w:\u3000", "w:\u205f\u202f", "w:\v\f",
+		// … and look-alikes that are NOT white space for Go: U+200B, U+180E, U+FEFF, a lone continuation byte,
+		// a truncated sequence, an over-long encoding of a space, a surrogate
+		"t:\u200b", "t:\u180e", "t:\ufeff", "t:\xa0", "t:\xc2", "t:\xe2\x80", "t:\xc0\xa0", "t:\xed\xa0\x80", "t: \xe3\x80", "t:\u00a0\x85"}
 	for i := 0; i < n; i++ {
 		k := r.Intn(3) + 1
 		for j := 0; j < k; j++ {
@@ -212,6 +360,94 @@ func genLines(r *Rand, n int) []byte {
 		}
 	}
 	return sb.Bytes()
+}
+
+// genClsSpec draws a classification configuration: ignore expressions over groups, {line}, {src} and
+// named groups (so that a context left over from another line, batch or source shows), extract
+// expressions with {src}/{line}, keys that can be empty or white space only.  Only functions of the
+// modelled registry, and only templates that compile.
+func genClsSpec(r *Rand, mode string, nin int) *clsSpec {
+	c := &clsSpec{matcher: Pick(r, []string{"h", "h", "n"})}
+	name := func() string {
+		if nin <= 0 || r.Chance(1, 8) {
+			return Pick(r, []string{"nosuch", "", "f0000", "s0"})
+		}
+		return srcName(mode, r.Intn(nin))
+	}
+	num := func() string { return Pick(r, []string{"0", "1", "1", "2", "2", "3", "4", "7", "20"}) }
+	var atom func(depth int) string
+	atom = func(depth int) string {
+		k := r.Intn(19)
+		if depth > 1 && k >= 13 {
+			k = r.Intn(13)
+		}
+		switch k {
+		case 0:
+			return "{1}"
+		case 1, 2:
+			return "{eq {line} " + num() + "}"
+		case 3, 4:
+			return "{eq {src} " + name() + "}"
+		case 5:
+			return "{gt {line} " + num() + "}"
+		case 6:
+			return "{lt {line} " + num() + "}"
+		case 7:
+			return "{prefix {0} " + Pick(r, []string{"a", "k", "w", "bb"}) + "}"
+		case 8:
+			return "{neq {src} " + name() + "}"
+		case 9:
+			return Pick(r, []string{"{2}", "{line}", "{src}", "{nosuch}", "{suffix {0} a}", "{like {0} :}", "{like {src} 1}"})
+		case 10:
+			if c.matcher == "n" {
+				return Pick(r, []string{"{val}", "{eq {key} k}", "{key}", "{eq {all} a}"})
+			}
+			return "{eq {1} v}"
+		case 11: // literals: blank ones are falsy, U+200B is not a space
+			return Pick(r, []string{"", " ", "\t", "\u00a0", "\u3000 \u2009", "\u200b", "\xa0", "0"})
+		case 12:
+			return "{eq {modi {line} " + Pick(r, []string{"2", "3"}) + "} " + Pick(r, []string{"0", "1"}) + "}"
+		case 13:
+			return "{and " + atom(depth+1) + " " + atom(depth+1) + "}"
+		case 14:
+			return "{or " + atom(depth+1) + " " + atom(depth+1) + "}"
+		case 15:
+			return "{not " + atom(depth+1) + "}"
+		case 16:
+			return "{if " + atom(depth+1) + " " + Pick(r, []string{"\" \"", "y", "{1}", "\"\u00a0\"", "{line}"}) + " " + Pick(r, []string{"\"\"", "\"\t\"", "{1}", "n"}) + "}"
+		case 17:
+			return "{and {eq {src} " + name() + "} {eq {line} " + num() + "}}"
+		default:
+			return "{unless " + atom(depth+1) + " " + Pick(r, []string{"{src}", "1", "\" \""}) + "}"
+		}
+	}
+	switch r.Intn(12) {
+	case 0:
+		c.nilIgnore = true
+	case 1: // a set without expressions
+	case 2:
+		c.ignores = []string{"{1}"}
+	default:
+		n := Pick(r, []int{1, 1, 1, 2, 2, 3})
+		for i := 0; i < n; i++ {
+			c.ignores = append(c.ignores, atom(0))
+		}
+	}
+	ex := []string{"{0}", "{0}", "{src}:{line}:{0}", "{src}:{line}:{0}", "{1}", "{1}", "{line}", "{src}", "{2}", "{0}{1}",
+		"{if {gt {line} 2} {0}}", "{src} {line}", " ", "{if {eq {src} " + name() + "} {0} {1}}", "{unless {eq {line} " + num() + "} {0}}",
+		"{line}:{1}", "\u00a0{1}", "{eq {line} " + num() + "}", "{select {0} 0}", "{substr {0} 0 2}"}
+	if c.matcher == "n" {
+		ex = append(ex, "{val}", "{key}", "{key}={val}", "{all}", "{src}/{key}")
+	}
+	c.extract = Pick(r, ex)
+	// keep only configurations the real constructors accept
+	if _, err := extractorConfig(c, 1); err != nil {
+		return genClsSpec(r, mode, nin)
+	}
+	if _, err := funclib.NewKeyBuilder().Compile(c.extract); err != nil {
+		return genClsSpec(r, mode, nin)
+	}
+	return c
 }
 
 func pipeGen(r *Rand, tier string) []string {
@@ -286,7 +522,11 @@ func pipeGen(r *Rand, tier string) []string {
 		}
 		procs := Pick(r, []int{0, 1, 2, 4, 16})
 		delay := Pick(r, []int{0, 0, 1, 3})
-		out = append(out, fmt.Sprintf("pipe %s %s %d %d %d %d %d %s %d %d", HexList(ins), mode, batch, workers, readers, buffer, flush, script, procs, delay))
+		line := fmt.Sprintf("pipe %s %s %d %d %d %d %d %s %d %d", HexList(ins), mode, batch, workers, readers, buffer, flush, script, procs, delay)
+		if i%8 != 5 { // one case in eight keeps the legacy fixed configuration
+			line += " " + strings.Join(genClsSpec(r, mode, len(ins)).fields(), " ")
+		}
+		out = append(out, line)
 	}
 	return out
 }
@@ -311,6 +551,37 @@ func pipeStats(cases []string) map[string]int {
 			st["timeflush.sleeps"]++
 		}
 		st["inputs."+strconv.Itoa(len(UnHexList(f[1])))]++
+		if len(f) >= 14 {
+			clsStats(st, "cls.", parseClsSpec(f[11], f[12], f[13]))
+		} else {
+			st["cls.legacy"]++
+		}
 	}
 	return st
+}
+
+// clsStats adds distribution facts of a classification configuration to st.
+func clsStats(st map[string]int, pre string, c *clsSpec) {
+	st[pre+"matcher."+c.matcher]++
+	switch {
+	case c.nilIgnore:
+		st[pre+"ignore.nil"]++
+	case len(c.ignores) == 0:
+		st[pre+"ignore.emptyset"]++
+	default:
+		st[pre+"ignore.n"+strconv.Itoa(len(c.ignores))]++
+	}
+	all := strings.Join(c.ignores, " ")
+	if strings.Contains(all, "{line}") {
+		st[pre+"ignore.uses.line"]++
+	}
+	if strings.Contains(all, "{src}") {
+		st[pre+"ignore.uses.src"]++
+	}
+	if strings.Contains(c.extract, "{src}") || strings.Contains(c.extract, "{line}") {
+		st[pre+"extract.uses.srcline"]++
+	}
+	if c.extract == "{1}" || c.extract == " " || strings.HasSuffix(c.extract, "{val}") {
+		st[pre+"extract.blankable"]++
+	}
 }
